@@ -40,6 +40,11 @@ def case_hash(case):
     return hashlib.sha1(data.encode()).hexdigest()[:16]
 
 
+def case_hash64(case):
+    data = json.dumps(jsonable(case), sort_keys=True, separators=(',', ':'))
+    return int.from_bytes(hashlib.blake2b(data.encode(), digest_size=8).digest(), 'big')
+
+
 class Violation(Exception):
     """Raised by an oracle; key = mechanism key (never random values)."""
     def __init__(self, key, msg, **extra):
@@ -58,6 +63,7 @@ class Ctx:
 
     MAX_SAMPLES = 3
     MAX_VIOLATIONS = 40
+    MAX_HASHES = 100_000    # per worker; beyond that distinct_nontrivial is a lower bound
 
     def __init__(self, prop, tier, seed, shard, nshards, replay=False):
         self.prop = prop
@@ -69,6 +75,8 @@ class Ctx:
         self.counters = collections.Counter()
         self.sets = collections.defaultdict(set)    # named sets of distinct observations
         self.nontrivial = set()
+        self.enumerated = 0         # non-trivial cases that are distinct by construction
+        self.capped = False
         self.evaluations = 0
         self.samples = []
         self.violations = []
@@ -92,10 +100,19 @@ class Ctx:
         if len(s) < 5000:
             s.add(value)
 
-    def case_done(self, case, nontrivial, sample=None):
+    def case_done(self, case, nontrivial, sample=None, enumerated=False):
+        """
+        Register a finished case.  enumerated=True: the case comes from an enumeration that
+        yields each case exactly once (distinct by construction) - it is counted, not hashed.
+        """
         self.evaluations += 1
         if nontrivial:
-            self.nontrivial.add(case_hash(case))
+            if enumerated:
+                self.enumerated += 1
+            elif len(self.nontrivial) < self.MAX_HASHES:
+                self.nontrivial.add(case_hash64(case))
+            else:
+                self.capped = True
             if sample is not None and len(self.samples) < self.MAX_SAMPLES:
                 self.samples.append(jsonable(sample))
 
@@ -114,6 +131,8 @@ class Ctx:
         return {
             'evaluations': self.evaluations,
             'nontrivial': sorted(self.nontrivial),
+            'enumerated': self.enumerated,
+            'capped': self.capped,
             'samples': self.samples,
             'counters': dict(self.counters),
             'sets': {k: sorted(v, key=repr)[:200] for k, v in self.sets.items()},
